@@ -165,6 +165,21 @@ def directory_inputs(v, tier, ev, mlar):
             if rc != 0 or so != d:
                 v.violation(dict(rec, cmd="cat", kind="cat-content-differs"), dict(name=k, rc=rc, stderr=se))
         n += 1
+        # ... and the transforming commands writing THEIR archive to standard output
+        for cmd in ("convert", "repair"):
+            rc, so, se = run([cmd, "-i", os.path.join(wd, "stdout.mla"), "-o", "-", "-l"])
+            rec2 = dict(check="cli-observe", cmd=cmd + "-stdout", keymode="missing", layers="none")
+            outp = os.path.join(wd, f"stdout-{cmd}.mla")
+            open(outp, "wb").write(so)
+            rc2, so2, se2 = run(["list", "-i", outp])
+            if rc != 0 or rc2 != 0 or sorted(so2.decode().splitlines()) != sorted(want):
+                v.violation(dict(rec2, kind="listing-differs"), dict(rc=[rc, rc2], stderr=(se + se2)[-300:], tail=so[-60:].hex()))
+                continue
+            for k, d in want.items():
+                rc3, so3, se3 = run(["cat", "-i", outp, "-o", "-", k])
+                if rc3 != 0 or so3 != d:
+                    v.violation(dict(rec2, kind="cat-content-differs"), dict(name=k, rc=rc3, stderr=se3))
+            n += 1
     shutil.rmtree(wd, ignore_errors=True)
     ev["directory_inputs"] = n
     log(f"[C17] create from directories (one directory under two names, links to a file and to an outside directory): {n} archives compared with the walk")
